@@ -29,7 +29,7 @@ size_t malloc_usable_size(void *);
 
 namespace {
 enum Mode { OFF = 0, AFTER = 1, BEFORE = 2 };
-struct Ent { uintptr_t user; uintptr_t base; size_t maplen; size_t size; };
+struct Ent { uintptr_t user; uintptr_t base; size_t maplen; size_t size; long seq; };
 const size_t TABSZ = 1u << 17; // open addressing, power of two
 Ent tab[TABSZ];
 std::atomic_flag lk = ATOMIC_FLAG_INIT;
@@ -72,12 +72,29 @@ size_t vf_block_size(const void *p) {
     for (size_t i = 0; i < TABSZ; i++) { Ent &e = tab[(h + i) & (TABSZ - 1)]; if (e.user == 0) break; if (e.user == u) { r = e.size; break; } }
     unlock(); return r;
 }
+// write-protect (ro = 1) or re-open (ro = 0) live guarded blocks: the one whose user pointer is p, or every block allocated while the allocation
+// counter was in [from, to).  A harness freezes the objects a call must not write (keys, inputs): even a transient write-and-restore faults.
+static int protect_ent(const Ent &e, int ro) {
+    size_t body = e.maplen - PAGE; uintptr_t start = mode == AFTER ? e.base : e.base + PAGE;
+    return mprotect((void *)start, body, ro ? PROT_READ : (PROT_READ | PROT_WRITE)) == 0;
+}
+int vf_protect(const void *p, int ro) {
+    if (mode != AFTER && mode != BEFORE) return 0;
+    lock(); int r = 0; uintptr_t u = (uintptr_t)p; size_t h = hashp(u);
+    for (size_t i = 0; i < TABSZ; i++) { Ent &e = tab[(h + i) & (TABSZ - 1)]; if (e.user == 0) break; if (e.user == u) { r = protect_ent(e, ro); break; } }
+    unlock(); return r;
+}
+long vf_alloc_seq() { return vf_total_allocs; }
+int vf_protect_epoch(long from, long to, int ro) {
+    if (mode != AFTER && mode != BEFORE) return 0;
+    lock(); int n = 0; for (size_t i = 0; i < TABSZ; i++) { Ent &e = tab[i]; if (e.user <= TOMB) continue; if (e.seq >= from && e.seq < to) n += protect_ent(e, ro); } unlock(); return n;
+}
 // describe the guarded block closest to a faulting address (for the SIGSEGV report); async-signal-unsafe but we are dying anyway
 int vf_describe_fault(uintptr_t addr, char *out, size_t outlen) {
     for (size_t i = 0; i < TABSZ; i++) { Ent &e = tab[i]; if (e.user <= TOMB) continue;
         if (addr >= e.base && addr < e.base + e.maplen) {
             long off = (long)addr - (long)e.user;
-            snprintf(out, outlen, "VF-GUARD fault at %p: %ld bytes %s a %zu-byte block", (void *)addr, off >= 0 ? off - (long)e.size + 1 : -off, off >= 0 ? "past the end of" : "before", e.size);
+            if (off >= 0 && off < (long)e.size) snprintf(out, outlen, "VF-GUARD fault at %p: write into a frozen (read-only) %zu-byte block at offset %ld", (void *)addr, e.size, off); else snprintf(out, outlen, "VF-GUARD fault at %p: %ld bytes %s a %zu-byte block", (void *)addr, off >= 0 ? off - (long)e.size + 1 : -off, off >= 0 ? "past the end of" : "before", e.size);
             return 1; } }
     snprintf(out, outlen, "VF-GUARD fault at %p: not in a guarded mapping (wild/null/freed)", (void *)addr);
     return 0;
@@ -99,14 +116,14 @@ static void *guarded_alloc(size_t size, size_t align) {
     if (fillbyte >= 0) memset(user, fillbyte, mode == AFTER ? (size_t)(base + body - user) : body);
     lock();
     size_t h = hashp((uintptr_t)user); bool ok = false;
-    for (size_t i = 0; i < TABSZ; i++) { Ent &e = tab[(h + i) & (TABSZ - 1)]; if (e.user <= TOMB) { e.user = (uintptr_t)user; e.base = (uintptr_t)base; e.maplen = maplen; e.size = size; ok = true; break; } }
+    for (size_t i = 0; i < TABSZ; i++) { Ent &e = tab[(h + i) & (TABSZ - 1)]; if (e.user <= TOMB) { e.user = (uintptr_t)user; e.base = (uintptr_t)base; e.maplen = maplen; e.size = size; e.seq = vf_total_allocs; ok = true; break; } }
     if (ok) { vf_guarded_live++; vf_guarded_allocs++; if (vf_guarded_live > vf_peak_guarded) vf_peak_guarded = vf_guarded_live; vf_live_blocks++; vf_live_bytes += (long)size; vf_total_allocs++; }
     unlock();
     if (!ok) { munmap(base, maplen); return nullptr; }
     return user;
 }
 static bool guarded_free(void *p, size_t *oldsize = nullptr, bool keep = false) {
-    lock(); uintptr_t u = (uintptr_t)p; size_t h = hashp(u); Ent found = {0, 0, 0, 0};
+    lock(); uintptr_t u = (uintptr_t)p; size_t h = hashp(u); Ent found = {0, 0, 0, 0, 0};
     for (size_t i = 0; i < TABSZ; i++) { Ent &e = tab[(h + i) & (TABSZ - 1)]; if (e.user == 0) break; if (e.user == u) { found = e; if (!keep) { e.user = TOMB; vf_guarded_live--; vf_live_blocks--; vf_live_bytes -= (long)e.size; } break; } }
     unlock();
     if (!found.user) return false;
